@@ -6,6 +6,6 @@ CONSTANTS
   Horizon = 3
   WakeDelays = {0, 1}
   RestoreMode = "poporder"
-INVARIANTS BufferBounds TickDiscipline RestoredGuardSound NoLostAfterCut
+INVARIANTS BufferBounds TickDiscipline RestoredGuardSound NoLostAfterCut SeqFresh
 PROPERTY CutInvisible
 CHECK_DEADLOCK FALSE
